@@ -32,7 +32,7 @@ Not decided: value preservation over histories.
 """
 import ast
 
-from ..source import norm, short, qualname, enclosing_class, decorators
+from ..source import class_methods, norm, short, qualname, enclosing_class, decorators
 from ..flow import own_nodes
 from ..resolve import FieldEffects
 from .. import mutate as mu
@@ -88,7 +88,91 @@ def _held_values_are_roots(ctx, rep):
     rep.floor('roots.values-held-across-a-parse', n, 4, 'obligations')
 
 
+DEREF = ('to_pointer', 'to_value', 'to_str', 'dereference', 'view', 'address')
+
+
+def _values_read_after_a_possible_collection(ctx, rep):
+    """StringSpace.check_modify copies a program literal into string space before it is modified in place; that
+    allocation can collect garbage, which moves or frees every string that is not a collector root.  In each
+    String method that calls it, a String *argument* must either be turned into host bytes before the call, or --
+    if it is dereferenced afterwards -- every caller must have registered it in temp_values for the duration."""
+    scls = ctx.cls(ST + ':String')
+    n_methods = 0
+    for m in class_methods(scls).values():
+        cms = [c for c in own_nodes(m) if isinstance(c, ast.Call) and isinstance(c.func, ast.Attribute) and c.func.attr == 'check_modify']
+        if not cms:
+            continue
+        n_methods += 1
+        first = min(c.lineno for c in cms)
+        params = [a.arg for a in m.args.args[1:]]
+        late = []
+        for c in own_nodes(m):
+            if isinstance(c, ast.Call) and isinstance(c.func, ast.Attribute) and c.func.attr in DEREF and isinstance(c.func.value, ast.Name) \
+                    and c.func.value.id in params and c.lineno > first and c.func.value.id not in late:
+                late.append(c.func.value.id)
+        if not late:
+            rep.ob('roots.argument-read-after-collection', 'String.%s reads its string arguments before check_modify can collect' % m.name, True)
+            continue
+        # every call site must hold those arguments as roots
+        sites = 0
+        for fn in ctx.idx.functions('pcbasic/basic/'):
+            for call in own_nodes(fn):
+                if isinstance(call, ast.Call) and isinstance(call.func, ast.Attribute) and call.func.attr == m.name and len(call.args) + len(call.keywords) == len(params):
+                    sites += 1
+                    fl = ctx.flow(fn)
+                    for p_ in late:
+                        k_ = params.index(p_)
+                        argn = call.args[k_] if k_ < len(call.args) else [kw.value for kw in call.keywords if kw.arg == p_][0]
+                        arg = norm(argn)
+                        adds = [c for c in own_nodes(fn) if isinstance(c, ast.Call) and norm(c.func).endswith('temp_values.add') and c.args and norm(c.args[0]) == arg
+                                and c.lineno < call.lineno]
+                        rel = [c for c in own_nodes(fn) if isinstance(c, ast.Call) and norm(c.func).split('.')[-1] in ('discard', 'remove') and 'temp_values' in norm(c.func)
+                               and c.args and norm(c.args[0]) == arg]
+                        in_try = [t for t in own_nodes(fn) if isinstance(t, ast.Try) and t.finalbody and any(x is call for x in ast.walk(t))
+                                  and any(r is y for r in rel for fb in t.finalbody for y in ast.walk(fb))]
+                        rep.ob('roots.argument-read-after-collection',
+                               '%s: `%s` is a collector root while String.%s runs' % (qualname(fn).split(':')[1], arg, m.name),
+                               bool(adds) and bool(in_try),
+                               'String.%s dereferences `%s` after check_modify, which may have collected garbage: the value must be registered in temp_values around the call (and released in a finally)' % (m.name, p_),
+                               ctx.where(call))
+        rep.floor('roots.call-sites-of-%s' % m.name, sites, 1, 'call sites')
+    rep.floor('roots.argument-read-after-collection', n_methods, 2, 'String methods that call check_modify')
+
+
+def _temporaries_boundary(ctx, rep):
+    """`_temp` separates permanent strings (addr > _temp) from temporaries.  After a collection it is re-derived from
+    the new address A of the lowest permanent string; with the strict reader test, the writer must store A - 1, or
+    that string itself counts as a temporary and the next expression frees it."""
+    from ..algebra import lin
+    readers = []
+    for name in ('is_permanent', 'collect_garbage'):
+        fn = ctx.fn(ST + ':StringSpace.' + name)
+        for c in own_nodes(fn):
+            if isinstance(c, ast.Compare) and len(c.ops) == 1 and 'self._temp' in (norm(c.left), norm(c.comparators[0])) \
+                    and isinstance(c.ops[0], (ast.Gt, ast.GtE, ast.Lt, ast.LtE)):
+                strict_above = (isinstance(c.ops[0], ast.Gt) and norm(c.comparators[0]) == 'self._temp') or (isinstance(c.ops[0], ast.Lt) and norm(c.left) == 'self._temp')
+                readers.append((name, strict_above, c))
+    for name, ok, c in readers:
+        rep.ob('temporaries.boundary-readers', 'StringSpace.%s: permanent means addr > _temp' % name, ok, norm(c), ctx.where(c))
+    rep.floor('temporaries.boundary-readers', len(readers), 2, 'comparisons with _temp')
+    cg = ctx.fn(ST + ':StringSpace.collect_garbage')
+    ws = [a for a in own_nodes(cg) if isinstance(a, ast.Assign) and norm(a.targets[0]) == 'self._temp' and not (isinstance(a.value, ast.Constant) and a.value.value is None)]
+    ok = len(ws) == 1
+    detail = ''
+    if ok:
+        l = lin(ws[0].value)
+        consts = [v for k, v in l.items() if k in ('', 1, '1', None)] if isinstance(l, dict) else []
+        others = [(k, v) for k, v in l.items() if k not in ('', 1, '1', None)] if isinstance(l, dict) else []
+        ok = consts == [-1] and len(others) == 1 and others[0][1] == 1 and 'last_perm_view' in str(others[0][0])
+        detail = 'boundary = %s' % norm(ws[0].value)
+    rep.ob('temporaries.boundary-below-sentinel', 'after a collection the boundary is one below the address of the lowest permanent string', ok, detail, ctx.where(cg))
+
+
 def check(ctx, rep):
+    _values_read_after_a_possible_collection(ctx, rep)
+    _temporaries_boundary(ctx, rep)
+    from . import c12, _share
+    _share.share(ctx, rep, c12, ('erase.',), 'ERASE removes the array (and with it its strings) from every table the collector reads')
     _held_values_are_roots(ctx, rep)
     # ---- (i) ownership -------------------------------------------------------------
     fe = FieldEffects(ctx)
@@ -308,6 +392,10 @@ def variants(ctx):
         return t
 
     return [
+        Va('boundary-on-the-sentinel', 'break', ST,
+           in_fn('StringSpace.collect_garbage', lambda fn: mu.replace_expr(fn, lambda n: isinstance(n, ast.BinOp) and norm(n).startswith('-1 + struct.unpack_from'), "struct.unpack_from('<H', last_perm_view.tobytes(), 1)[0]")), expect='temporaries.boundary-below'),
+        Va('mid-value-not-a-root', 'break', M, in_fn('DataSegment.mid_', _unroot_mid), expect='roots.argument-read-after-collection'),
+        Va('lset-reads-source-after-copy', 'break', ST, in_fn('String.lset', _lset_late), expect='roots.argument-read-after-collection'),
         Va('get-stack-no-finally', 'break', M, unfinally('DataSegment.get_stack'), expect='unwind'),
         Va('hold-garbage-no-finally', 'break', M, unfinally('DataSegment.hold_garbage'), expect='unwind'),
         Va('collector-forgets-arrays', 'break', M,
@@ -346,3 +434,22 @@ def _move_check_after(fn):
             n.body.insert(k + 1, chk)
             return True
     return False
+
+
+def _unroot_mid(fn):
+    ok = mu.remove_stmt(fn, mu.text_is('self.temp_values.add(val)'))
+    return ok
+
+
+def _lset_late(fn):
+    st = [x for x in fn.body if norm(x) == 'in_str = in_str.to_value()']
+    cm = [x for x in fn.body if 'check_modify' in norm(x)]
+    if len(st) != 1 or len(cm) != 1:
+        return False
+    # move the copy of the literal (check_modify + from_pointer) in front of reading the source
+    i = fn.body.index(cm[0])
+    block = fn.body[i:i + 2]
+    del fn.body[i:i + 2]
+    j = fn.body.index(st[0])
+    fn.body[j:j] = block
+    return True
